@@ -21,10 +21,23 @@ run c16-csnone-is-zero-value $ALL 0
 run c16-newcharrecipe-empty-requiresets $ALL 0
 run c18-log-rejection-count $ALL 0
 run two-chars-per-draw $ALL 0
+run a01-early-abort $ALL 0
+run a02-n1-no-read $ALL 0
+run a03-trailing-sep-trimmed $ALL 0
+run a04-random-caps-one-draw $ALL 0
+run a05-separators-first $ALL 0
+run a06-reject-low-values $ALL 0
+run a09-wl-entropy-float64-skip-sep-when-no-gap $ALL 0
+run a11-small-recipes-pick-from-list $ALL 0
+run a13-undefined-flag-bits-rejected $ALL 0
+# changes that break ONE property: every other check must stay silent
+run a07-requiresets-sorted-in-place C01,C02,C03,C04,C05,C06,C07,C08,C09,C10,C11,C12,C13,C16,C17,C18 0
+run a08-one-more-trial C01,C02,C03,C04,C05,C06,C07,C08,C09,C10,C11,C12,C14,C15,C17,C18 0
 # variants that break the hook contract (announce-then-read one 32-bit word)
 run char-candidate-batch-read $ALL 0,2
 run read-one-byte-at-a-time $ALL 0,2
 run read8-use4 $ALL 0,2
+run a10-wl-reads-ahead-per-call $ALL 0,2
 # variants that depart from a documented reference (DESIGN 7): listed for the
 # record, run only against the checks that do not own that reference
 run kind4-sep-first-alternating C01,C02,C03,C04,C05,C06,C07,C08,C09,C10,C11,C13,C14,C15,C16,C17,C18 0
